@@ -627,6 +627,275 @@ theorem step_end_while (T : TopCtx V c R vm r a as' rest) (ha : Anch p.code vm.i
     · simp only [FrameAt]
       exact ⟨pcR, hss, hk⟩
 
+theorem step_goto (T : TopCtx V c R vm r a as' rest) (ha : Anch p.code vm.ip ip)
+    {m : Name} {pos : Pos} {ss : Stmts}
+    (hfo : FrameOK vm.data a (V.ri r) env ctrs)
+    (hat : FrameAt (V.env r) (V.G r) (Holds vm.data a)
+      ⟨r, env, ctrs, .cons (.goto m pos) ss, k, .run⟩ ip 0) (cfg0 : Config) :
+    StepRes V c R cfg0 vm
+      (match findLabel m (bodyOf src r) .done with
+       | some (f, k2) => ⟨⟨r, env, ctrs, f, k2, .run⟩ :: rest, .running⟩
+       | none => ⟨⟨r, env, ctrs, .cons (.goto m pos) ss, k, .run⟩ :: rest, .stuck⟩) := by
+  simp only [FrameAt, SAt, SAt1] at hat
+  obtain ⟨pcE, ⟨pc1, ⟨off, h1, hg, rfl⟩, hss⟩, hk⟩ := hat
+  have he : (V.env r).code = p.code := rfl
+  obtain ⟨ss', K', pm, pcE', hfl, hA, hs', hk'⟩ :=
+    goto_resolve (hV.chk r T.rle) (hV.res r T.rle) hg
+  rw [hfl]
+  obtain ⟨vm1, s1, g1, ip1, st1, d1⟩ := r_jmp hc T.good ha (at_code he h1)
+  refine StepRes.run vm1 rfl (Or.inl s1) ?_
+  refine T.finish g1 st1 (by rw [d1]; exact SameBelow.refl _ _) (ip' := pm) (by rw [ip1]; exact hA)
+    rfl (by rw [d1]; exact hfo) ?_ (fun ⟨_, _, h⟩ => nomatch h)
+  simp only [FrameAt]
+  exact ⟨pcE', hs', hk'⟩
+
+theorem step_ifGoto (T : TopCtx V c R vm r a as' rest) (ha : Anch p.code vm.ip ip)
+    {x : Name} {cst : Nat} {m : Name} {pos : Pos} {ss : Stmts}
+    (hfo : FrameOK vm.data a (V.ri r) env ctrs)
+    (hat : FrameAt (V.env r) (V.G r) (Holds vm.data a)
+      ⟨r, env, ctrs, .cons (.ifGoto x cst m pos) ss, k, .run⟩ ip 0) (cfg0 : Config) :
+    StepRes V c R cfg0 vm
+      (if env.get x = cst then
+        (match findLabel m (bodyOf src r) .done with
+         | some (f, k2) => ⟨⟨r, env, ctrs, f, k2, .run⟩ :: rest, .running⟩
+         | none => ⟨⟨r, env, ctrs, .cons (.ifGoto x cst m pos) ss, k, .run⟩ :: rest, .stuck⟩)
+       else ⟨⟨r, env, ctrs, ss, k, .run⟩ :: rest, .running⟩) := by
+  simp only [FrameAt, SAt, SAt1] at hat
+  obtain ⟨pcE, ⟨pc1, ⟨rx, t1, t2, t0, off, hrx, h1, hn1, h2, hn2, hne, hlt, h3, hn0, h4, hg, rfl⟩,
+    hss⟩, hk⟩ := hat
+  have he : (V.env r).code = p.code := rfl
+  have hx := hfo.reg hrx
+  obtain ⟨_, _, vm1, s1, g1, ip1, p1, hh1⟩ :=
+    r_add hc T.good T.stk ha (at_code he h1) hx (clamp_zero hx.2.2.2) hx.2.2.2
+  have st1 := p1.stack.trans T.stk
+  have a1 : Anch p.code vm1.ip ((V.env r).next ip) := by
+    rw [ip1, next_code he]; exact Anch.self _ _
+  obtain ⟨_, _, vm2, s2, g2, ip2, p2, hh2⟩ := r_const hc g1 st1 a1 (at_code he h2)
+  have hh2 := hh2 cst rfl (Nat.le_of_lt hlt)
+  have st2 := p2.stack.trans st1
+  have hh1' : Holds vm2.data a t1 (env.get x) :=
+    p2.other _ _ (by simp; exact fun h => hne h.symm) hh1
+  have a2 : Anch p.code vm2.ip ((V.env r).next ((V.env r).next ip)) := by
+    rw [ip2, next_code he ((V.env r).next ip)]; exact Anch.self _ _
+  obtain ⟨_, _, vm3, s3, g3, ip3, p3, hh3⟩ := r_test hc g2 st2 a2 (at_code he h3) hh1' hh2
+  have st3 := p3.stack.trans st2
+  have a3 : Anch p.code vm3.ip ((V.env r).next ((V.env r).next ((V.env r).next ip))) := by
+    rw [ip3, next_code he ((V.env r).next ((V.env r).next ip))]; exact Anch.self _ _
+  obtain ⟨vm4, s4, g4, ip4, st4, d4⟩ := r_jmpc hc g3 st3 a3 (at_code he h4) hh3
+  have pall := (p1.trans p2).trans p3
+  have hfo4 : FrameOK vm4.data a (V.ri r) env ctrs := by
+    rw [d4]
+    refine hfo.pres (fun r' w hn hw => pall.other r' w ?_ hw)
+    intro hm
+    have hnn : (V.env r).me.isNamed r' = true := hn
+    simp only [List.mem_append, List.mem_singleton] at hm
+    rcases hm with (rfl | rfl) | rfl
+    · rw [hnn] at hn1; cases hn1
+    · rw [hnn] at hn2; cases hn2
+    · rw [hnn] at hn0; cases hn0
+  have hsb : SameBelow a.dataStart vm.data vm4.data := by rw [d4]; exact pall.below
+  have hst4 : vm4.stack = vm.stack := st4.trans pall.stack
+  have sall : SP vm vm4 := ((s1.trans s2).trans s3).trans s4
+  by_cases hn : env.get x = cst
+  · rw [if_pos hn]
+    rw [if_pos hn, if_pos rfl] at ip4
+    obtain ⟨ss', K', pm, pcE', hfl, hA, hs', hk'⟩ :=
+      goto_resolve (hV.chk r T.rle) (hV.res r T.rle) hg
+    rw [hfl]
+    refine StepRes.run vm4 rfl (Or.inl sall) ?_
+    refine T.finish g4 hst4 hsb (ip' := pm) (by rw [ip4]; exact hA) rfl hfo4 ?_
+      (fun ⟨_, _, h⟩ => nomatch h)
+    simp only [FrameAt]
+    exact ⟨pcE', hs', hk'⟩
+  · rw [if_neg hn]
+    rw [if_neg hn, if_neg (by omega)] at ip4
+    refine StepRes.run vm4 rfl (Or.inl sall) ?_
+    refine T.finish g4 hst4 hsb
+      (ip' := (V.env r).next ((V.env r).next ((V.env r).next ((V.env r).next ip)))) ?_ rfl hfo4 ?_
+      (fun ⟨_, _, h⟩ => nomatch h)
+    · rw [ip4, next_code he ((V.env r).next ((V.env r).next ((V.env r).next ip)))]
+      exact Anch.self _ _
+    · simp only [FrameAt]
+      exact ⟨pcE, hss, hk⟩
+
+/-- the VM has reached a `HALT` (through sites) in a matched state -/
+theorem halt_here (T : TopCtx V c R vm r a as' rest) (ha : Anch p.code vm.ip ip)
+    (hh : p.code[skipc p.code ip]? = some .halt) {fr : Frame} (hr : fr.routine = r)
+    (he : effEnv fr = fr.env) (hfo : FrameOK vm.data a (V.ri r) (effEnv fr) fr.ctrs)
+    (hat : FrameAt (V.env r) (V.G r) (Holds vm.data a) fr ip 0) (cfg0 : Config) :
+    StepRes V c R cfg0 vm ⟨fr :: rest, .halted⟩ := by
+  obtain ⟨vm1, s1, g1, ip1, st1, d1⟩ := to_anchor hc T.good ha
+  refine StepRes.halt vm1 rfl s1 ⟨?_, ?_⟩
+  · rw [isDone_of_fetch (g1.fetch ip1 hh)]
+    rfl
+  · rw [d1, st1, T.stk]
+    subst hr
+    have hrel : StackRel V vm.data (fr :: rest) (a :: as') ip 0 :=
+      stackRel_cons.2 ⟨⟨T.rle, T.dbg, hfo, hat⟩, T.restrel⟩
+    exact hrel.agrees hV (fun fr' rest' h => by cases h; exact he)
+
+theorem step_stop (T : TopCtx V c R vm r a as' rest) (ha : Anch p.code vm.ip ip)
+    {pos : Pos} {ss : Stmts}
+    (hfo : FrameOK vm.data a (V.ri r) env ctrs)
+    (hat : FrameAt (V.env r) (V.G r) (Holds vm.data a)
+      ⟨r, env, ctrs, .cons (.stop pos) ss, k, .run⟩ ip 0) (cfg0 : Config) :
+    StepRes V c R cfg0 vm ⟨⟨r, env, ctrs, .cons (.stop pos) ss, k, .run⟩ :: rest, .halted⟩ := by
+  have hat' := hat
+  simp only [FrameAt, SAt, SAt1] at hat'
+  obtain ⟨pcE, ⟨pc1, ⟨h1, _⟩, _⟩, _⟩ := hat'
+  exact halt_here hc hV T ha (at_code (e := V.env r) rfl h1)
+    (fr := ⟨r, env, ctrs, .cons (.stop pos) ss, k, .run⟩) rfl rfl hfo hat cfg0
+
+theorem step_end_root (T : TopCtx V c R vm r a as' []) (ha : Anch p.code vm.ip ip)
+    (hfo : FrameOK vm.data a (V.ri r) env ctrs)
+    (hat : FrameAt (V.env r) (V.G r) (Holds vm.data a)
+      ⟨r, env, ctrs, .nil, .done, .run⟩ ip 0) (cfg0 : Config) :
+    StepRes V c R cfg0 vm ⟨[⟨r, env, ctrs, .nil, .done, .run⟩], .halted⟩ := by
+  have hat' := hat
+  simp only [FrameAt, SAt, KAt] at hat'
+  obtain ⟨pcE, rfl, hpe⟩ := hat'
+  have hr : r = src.progs.length := T.restrel.2
+  refine halt_here hc hV T ha ?_ (fr := ⟨r, env, ctrs, .nil, .done, .run⟩) rfl rfl hfo hat cfg0
+  rw [hpe, hr]
+  exact hV.halt
+
+omit hc hV in
+theorem Holds.ret_same {d : List Int} {b : Act} {rt : Int} {n N : Nat} (h0 : 0 ≤ rt)
+    (h1 : rt < b.segSize) (hN : b.dataStart + b.segSize.toNat ≤ N) (hl : N ≤ d.length)
+    (hn : n ≤ WORD_MAX) : Holds ((d.set (b.dataStart + rt.toNat) (n : Int)).take N) b rt n := by
+  refine ⟨h0, h1, ?_, hn⟩
+  rw [List.getElem?_take_of_lt (by omega), List.getElem?_set_self (by omega)]
+
+omit hc hV in
+theorem Holds.ret_other {d : List Int} {b : Act} {rt r' : Int} {w N : Nat} (v : Int)
+    (h : Holds d b r' w) (hne : r' ≠ rt) (h0 : 0 ≤ rt)
+    (hN : b.dataStart + b.segSize.toNat ≤ N) :
+    Holds ((d.set (b.dataStart + rt.toNat) v).take N) b r' w := by
+  obtain ⟨g0, g1, g2, g3⟩ := h
+  refine ⟨g0, g1, ?_, g3⟩
+  rw [List.getElem?_take_of_lt (by omega), List.getElem?_set_ne (by omega)]
+  exact g2
+
+theorem step_end_ret (T : TopCtx V c R vm r a as'
+      (⟨r2, env2, ctrs2, focus2, k2, .wait x cs⟩ :: rest')) (ha : Anch p.code vm.ip ip)
+    (hfo : FrameOK vm.data a (V.ri r) env ctrs)
+    (hat : FrameAt (V.env r) (V.G r) (Holds vm.data a)
+      ⟨r, env, ctrs, .nil, .done, .run⟩ ip 0) (cfg0 : Config) :
+    StepRes V c R cfg0 vm
+      ⟨⟨r2, env2, ctrs2, focus2, k2,
+          .ret (env.get (match src.progs[r]? with | some pd => pd.out | none => [])) x cs⟩ :: rest',
+        .running⟩ := by
+  simp only [FrameAt, SAt, KAt] at hat
+  obtain ⟨pcE, rfl, hpe⟩ := hat
+  have he : (V.env r).code = p.code := rfl
+  obtain ⟨hrn, _, ip2, hra, hrel2⟩ := T.restrel
+  obtain ⟨b, as'', rfl, ⟨hr2, hdbg2, hfo2, hat2⟩, hrest2⟩ := stackRel_inv hrel2
+  obtain ⟨pd, ro, hpd, _, hret, hro⟩ := hV.rout r hrn
+  simp only [hpd]
+  rw [hpe] at ha
+  obtain ⟨vm1, s1, g1, ip1, st1, d1⟩ := to_anchor hc T.good ha
+  obtain ⟨_, _, hrt0, hrt1, v, hv, vm2, s2, g2, ipr, st2, d2⟩ :=
+    x_ret hc g1 (st1.trans T.stk) ip1 (at_code he hret)
+  have hout := hfo.reg hro
+  rw [d1, hout.2.2.1] at hv
+  cases hv
+  rw [d1] at d2
+  have htl := T.good.tiles
+  rw [T.stk] at htl
+  obtain ⟨_, hsum, _, hsum2, htl2⟩ := htl
+  simp only [FrameAt] at hat2
+  obtain ⟨live, pcS, pcE2, hctx, hss2, hk2⟩ := hat2
+  have hsame : Holds vm2.data b a.retTarget (env.get pd.out) := by
+    rw [d2]; exact Holds.ret_same hrt0 hrt1 (by omega) (by omega) hout.2.2.2
+  have hother : ∀ r' w, r' ≠ a.retTarget → Holds vm.data b r' w → Holds vm2.data b r' w := by
+    intro r' w hne hw
+    rw [d2]; exact Holds.ret_other _ hw hne hrt0 (by omega)
+  have hsb : SameBelow b.dataStart vm.data vm2.data := by
+    rw [d2]
+    exact (SameBelow.set _ _ (by omega)).trans (SameBelow.take _ (by omega))
+  refine StepRes.run vm2 rfl (Or.inl (s1.trans_sp ⟨0, s2⟩))
+    ⟨g2, rfl, ⟨ip2, by rw [ipr, hra]; exact Anch.self _ _, ?_⟩, ?_⟩
+  · rw [st2]
+    show StackRel V vm2.data (_ :: rest') (b :: as'') ip2 0
+    rw [stackRel_cons]
+    refine ⟨⟨hr2, hdbg2, ?_, ?_⟩, hrest2.below htl2 hsb⟩
+    · cases cs with
+      | nil =>
+        simp only [CtxAt] at hctx
+        obtain ⟨_, hrx, _⟩ := hctx
+        show FrameOK vm2.data b (V.ri r2) (env2.set x (env.get pd.out)) ctrs2
+        exact FrameOK.write_named hfo2 (hV.nodup r2 hr2) hrx hsame
+          (fun r' w _ hne hw => hother r' w hne hw)
+      | cons c1 cs' =>
+        simp only [CtxAt] at hctx
+        obtain ⟨live', acc, temps, pc1, tgt', pc'', _, htmp, _⟩ := hctx
+        show FrameOK vm2.data b (V.ri r2) env2 ctrs2
+        refine FrameOK.pres hfo2 (fun r' w hn hw => hother r' w ?_ hw)
+        intro hm
+        subst hm
+        have := (tempOK_iff.1 htmp).1
+        rw [show (V.env r2).me.isNamed a.retTarget = (V.ri r2).isNamed a.retTarget from rfl, hn] at this
+        cases this
+    · simp only [FrameAt]
+      refine ⟨live, a.retTarget, pcS, pcE2, hsame, ?_, hss2, hk2⟩
+      refine hctx.pres (fun t ht n' hn' => hother t n' ?_ hn')
+      intro hm
+      subst hm
+      exact hctx.not_live ht
+  · intro fr rest'' h
+    cases h
+    exact fun ⟨_, _, h⟩ => nomatch h
+
+/-- one step of the reference machine from a matched state -/
+theorem sim_step {cfg : Config} (hm : Match V c R cfg vm) :
+    StepRes V c R cfg vm (Sem.step src cfg) := by
+  obtain ⟨fr, rest, a, as', ip, rfl, T, ha, hfo, hat, hnw⟩ := hm.inv
+  obtain ⟨r, env, ctrs, focus, k, ctrl⟩ := fr
+  cases ctrl with
+  | run =>
+    cases focus with
+    | cons s ss =>
+      cases s with
+      | assign x v pos => exact step_assign hc hV T ha hfo hat
+      | mark m pos => exact step_mark hc hV T ha hfo hat
+      | loop id x body pos => exact step_loop hc hV T ha hfo hat _
+      | while_ x body pos => exact step_while hc hV T ha hfo hat _
+      | goto m pos => exact step_goto hc hV T ha hfo hat _
+      | ifGoto x cst m pos => exact step_ifGoto hc hV T ha hfo hat _
+      | stop pos => exact step_stop hc hV T ha hfo hat _
+    | nil =>
+      cases k with
+      | loop id body ss k' => exact step_end_loop hc hV T ha hfo hat _
+      | while_ x body ss k' => exact step_end_while hc hV T ha hfo hat _
+      | done =>
+        cases rest with
+        | nil => exact step_end_root hc hV T ha hfo hat _
+        | cons caller rest' =>
+          obtain ⟨_, ⟨x, cs, hw⟩, _⟩ := T.restrel
+          obtain ⟨r2, env2, ctrs2, focus2, k2, ctrl2⟩ := caller
+          simp only at hw
+          subst hw
+          exact step_end_ret hc hV T ha hfo hat _
+  | eval v x cs =>
+    cases v with
+    | var y => exact step_eval_simple hc hV T ha (SimpleVal.var y) hfo hat
+    | num n => exact step_eval_simple hc hV T ha (SimpleVal.num n) hfo hat
+    | inc y k' => exact step_eval_simple hc hV T ha (SimpleVal.inc y k') hfo hat
+    | dec y k' => exact step_eval_simple hc hV T ha (SimpleVal.dec y k') hfo hat
+    | call f args =>
+      cases args with
+      | nil => exact step_eval_call_nil hc hV T ha hfo hat _
+      | cons a0 as0 => exact step_eval_call_cons hc hV T ha hfo hat
+  | ret n x cs =>
+    cases cs with
+    | nil => exact step_ret_nil hc hV T ha hfo hat
+    | cons c1 cs' =>
+      obtain ⟨f, done, todo⟩ := c1
+      cases todo with
+      | nil => exact step_ret_cons_call hc hV T ha hfo hat _
+      | cons a0 as0 => exact step_ret_cons_more hc hV T ha hfo hat
+  | wait x cs => exact absurd ⟨x, cs, rfl⟩ hnw
+
 end cases
 
 end
